@@ -106,7 +106,7 @@ func (op Cir) Disassembler(arch *Arch, instr string) (string, error) {
 func (op Cir) Simulate(vm *VM, instr string) error {
 	reg_bits := vm.Mach.R
 	regdest := get_id(instr[:reg_bits])
-	regsrc := get_id(instr[reg_bits : reg_bits*2])
+	regsrc := regdest // single-operand instruction: the register is shifted in place, as the assembler and the hardware do
 	switch vm.Mach.Rsize {
 	case 8:
 		vm.Registers[regdest] = vm.Registers[regsrc].(uint8) >> 1
